@@ -12,10 +12,10 @@ VARIABLES calls, replies, rets
 gvars == <<vars, calls, replies, rets>>
 
 \* a registry that answers what was asked (the stored content may still be corrupt)
-HonestReplies == {r \in Replies : r.src = "served" /\ r.start = readCur /\ r.cl \in {"right", "absent"}
+HonestReplies == {r \in AllReplies : r.src = "served" /\ r.start = readCur /\ r.cl \in {"right", "absent"}
                                   /\ r.cr = "honest"}
 \* a registry that keeps its connections up but lies
-NoDropReplies == {r \in Replies : r.cut = NoCut}
+NoDropReplies == {r \in AllReplies : r.cut = NoCut}
 
 RecRet == rets' = IF ret'.seq # ret.seq
                   THEN Append(rets, [op |-> ret'.op, n |-> ret'.n, err |-> ret'.err])
